@@ -52,10 +52,13 @@ def gen_cases(ctx):
     for kind in KINDS:
         for n in (3, 4):
             pl = placements(n, kind)
+            unc = [p for p in pl if not p[1]]; conp = [p for p in pl if p[1]]
             for style in ("tiny", "mixed"):
-                ts, cs = rng.choice(pl)
-                for thr in (10, 1):
-                    cases.append(mk_case(kind, rand_params(rng, kind), n, list(ts), list(cs), rand_vec(rng, n, style), thr))
+                for group in (unc, conp):                          # an uncontrolled and a controlled placement each
+                    if not group: continue
+                    ts, cs = rng.choice(group)
+                    for thr in (10, 1):
+                        cases.append(mk_case(kind, rand_params(rng, kind), n, list(ts), list(cs), rand_vec(rng, n, style), thr))
             if kind not in ("CNOT", "Toffoli"):
                 con = [p for p in pl if p[1]]
                 if con:
